@@ -352,7 +352,12 @@ def main(argv=None):
         for e in r["errors"]:
             harness_errors.append("%s: %s" % (r["name"], e))
         for d in r["witness_div"]:
-            harness_errors.append("%s: symbolic verdict 'proved' but concrete run fails claim %s (%s) inputs=%s" % (r["name"], d["claim"], d["detail"], json.dumps(d["inputs"])))
+            # a concrete input on which the real code fails the claim: replayed like any counterexample
+            # (typically a witness sitting on a 1e-12 comparison window that floats resolve the other way)
+            if d["claim"] == "exception":
+                harness_errors.append("%s: witness run raised %s inputs=%s" % (r["name"], d["detail"], json.dumps(d["inputs"])))
+            else:
+                r["candidates"].append({"kind": "claim", "claim": d["claim"], "inputs": d["inputs"], "unconfirmed": True, "from_witness": True})
         if spec.get("twin"):
             twin_ok[r["name"]] = False
         for cand in r["candidates"]:
@@ -475,7 +480,7 @@ def main(argv=None):
     if harness_errors:
         for e in harness_errors[:20]:
             print("HARNESS-ERROR: " + e, file=sys.stderr)
-        for sig, path, txt in violations[:10]:
+        for sig, path, txt in violations[:200]:
             print("(unreported while harness errors persist) violation candidate %s replay=%s" % (sig, path))
         return EXIT_HARNESS
     if violations:
